@@ -235,7 +235,13 @@ let handle (lineno : int) (_line : string) (r : reader) : unit =
        | Some x ->
            let rp = List.map (fun (k, tx) -> ((if k = 1 then K_send else K_getraw), n_of_int tx)) rpcs in
            let (fails, m') = mon_step cfg !m !pre o script x rp post in
-           List.iter (fun c -> mon_fail step (int_of_n c) "monitor") fails;
+           (* a conservation failure while some user's granted total exceeds u32::MAX is the recorded class
+              "balance above u32::MAX wraps" (outside the envelope of the C07 theorems): code 107 *)
+           let above_u32 =
+             List.exists (fun (_, (g, _)) -> int_of_n g > 4294967295) m'.m_ledger in
+           List.iter (fun c ->
+             let c = int_of_n c in
+             mon_fail step (if c = 7 && above_u32 then 107 else c) "monitor") fails;
            (match o with OConnect (_, txs) -> if List.exists (fun a -> List.exists (fun tx -> tx = a.a_loc) txs) (!pre).o_apps then had_breach := true | _ -> ());
            m := m'
        | None -> corr_fail step "result" "?" (String.concat " " res_toks));
